@@ -366,3 +366,20 @@ def _c01_store_lemma():
 
 LEMMAS = [Lemma("C01.reported_balance", ["C01"], _c01_store_lemma,
                 uses=["store_results_in_network#junction:*", "store_results_in_network#Tank*", "mass_balance_constraint.build#row_is_demand_minus_inflow_plus_outflow_plus_leak"])]
+
+
+# ---------------------------------------------------------------------------- bounded: the reported results of real runs balance at every node
+
+from pyvc.runner import Bounded
+
+
+def _balance(i, n):
+    def run(tier, seed):
+        import sys, os
+        sys.path.insert(0, os.path.dirname(os.path.dirname(os.path.abspath(__file__))))
+        from bounded import c01_balance
+        return c01_balance.run(tier, seed, i, n)
+    return run
+
+
+BOUNDED = [Bounded("C01.balance_on_runs[%d/4]" % i, ["C01", "C09", "C08"], _balance(i, 4), kind="real simulator on listed / generated networks (not exhaustive)") for i in range(4)]
